@@ -47,6 +47,9 @@ def dumpOfDurable (d : Durable) : String :=
 def parseInj (ws : List String) : Option Inj :=
   match ws with
   | ["crash", s, t] => some (.crash (nat! s) (nat! t))
+  -- the step is carried out and the process dies right after it: for the modelled step order this is a
+  -- crash before the next durable step (or, after the last step, an operation that completed unobserved)
+  | ["crashafter", s] => some (.crash (nat! s + 1) 0)
   | ["fault", k, s, a] =>
     let kind := match k with
       | "shortwrite" => some FaultKind.shortwrite
@@ -104,16 +107,20 @@ def runCase : CaseFn := fun c => Id.run do
   let mut unknown := false         -- spec state unknown (failed rollback under a fault) until reopen
   let mut pendingCrash : Option (Log × Op) := none
   let mut failedOp : Option (Log × Op) := none
+  let mut afterMode := false
   for (ln, line) in c.lines do
     let (opS, obs) := splitObs line
     let ws := words opS
     if obs == "" then
       match parseInj ws with
-      | some i => inj := i
+      | some i =>
+        inj := i
+        afterMode := ws.head? == some "crashafter"
       | none => out := out.push s!"DIFF {pid} case {c.num} line {ln}: unparsable directive <{line}>"
       continue
     if ws == ["nop"] then
       inj := .none
+      afterMode := false
       continue
     if ws == ["dump"] then
       match parseDump obs with
@@ -144,11 +151,15 @@ def runCase : CaseFn := fun c => Id.run do
     | some op =>
       let armed := inj
       inj := .none
+      let isAfter := afterMode
+      afterMode := false
       -- model
       if !diverged then
         let (d', mo) := exec d op armed
         d := d'
-        if showOut mo != obs then
+        -- a crash right after the operation's last durable step: the model sees a completed operation
+        let completedUnobserved := isAfter && obs == "crashed" && mo != .crashed
+        if showOut mo != obs && !completedUnobserved then
           out := out.push s!"DIFF {pid} case {c.num} line {ln}: {opS} impl=<{obs}> model=<{showOut mo}>"
           diverged := true
       -- property oracle on the implementation's own report
